@@ -120,12 +120,165 @@ def _subst_snips(blocks, names, texts):
                 tt[key] = rx.sub(lambda m: mp[m.group(1)], tt[key])
 
 
+VARIANT_IDX = {"Ok": 0, "Err": 1, "None": 0, "Some": 1}
+BREAK_SIDE = {"Err", "None"}
+
+
+def _ret_sites(hj):
+    """where the helper's return place is assigned: [(block, 'stmt'|'call', variant-or-None)]"""
+    out = []
+    for bi, bl in enumerate(hj["blocks"]):
+        if bl.get("c") == 1:
+            continue
+        for s_ in bl.get("s", []):
+            if s_["k"] == "assign" and s_["pl"]["l"] == 0 and not s_["pl"].get("p"):
+                rv = s_["rv"]
+                v = rv.get("variant") if rv["k"] == "agg" and rv.get("variant") in VARIANT_IDX else None
+                out.append((bi, "stmt", v))
+        tt = bl["t"]
+        if tt["k"] == "call" and (tt.get("dest") or {}).get("l") == 0 and not (tt.get("dest") or {}).get("p"):
+            c = tt.get("callee") or ""
+            v = None
+            if "from_residual" in c:
+                v = "Err" if "result::Result" in c else ("None" if "option::Option" in c else None)
+            out.append((bi, "call", v))
+    return out
+
+
+def _chain_to_return(hj, start):
+    """blocks from `start` to the helper's return through single-successor goto / drop blocks that do not touch the return
+    place; None if the shape is different"""
+    chain, cur = [], start
+    for _ in range(12):
+        bl = hj["blocks"][cur]
+        if any(s_["k"] == "assign" and s_["pl"]["l"] == 0 for s_ in bl.get("s", [])):
+            return None
+        chain.append(cur)
+        tt = bl["t"]
+        if tt["k"] == "return":
+            return chain
+        if tt["k"] not in ("goto", "drop") or "t" not in tt:
+            return None
+        cur = tt["t"]
+    return None
+
+
+def _continuation(cj, cb):
+    """how the caller tests the call's result right away: ('direct', T, None, {variant idx: target}) for
+    `match f() { .. }` / `let Some(x) = f() else ..`, ('branch', T, U, {0: continue target, 1: break target}) for `f()?`"""
+    t = cj["blocks"][cb]["t"]
+    dest, T = t["dest"], t["t"]
+    if dest.get("p"):
+        return None
+    npred = 0
+    for bl in cj["blocks"]:
+        tt = bl["t"]
+        succ = []
+        if tt["k"] == "goto":
+            succ = [tt["t"]]
+        elif tt["k"] == "switch":
+            succ = [b for (_v, b) in tt["vals"]] + [tt["else"]]
+        elif tt["k"] in ("call", "drop", "assert") and "t" in tt:
+            succ = [tt["t"]]
+        npred += succ.count(T)
+    if npred != 1:
+        return None
+
+    def switch_on_discr_of(bl, local):
+        tt = bl["t"]
+        if tt["k"] != "switch" or tt["d"].get("k") not in ("copy", "move") or tt["d"]["pl"].get("p"):
+            return None
+        dl = tt["d"]["pl"]["l"]
+        for s_ in bl.get("s", []):
+            if s_["k"] == "assign" and s_["pl"]["l"] == dl and not s_["pl"].get("p") and s_["rv"]["k"] == "discr" and s_["rv"]["pl"]["l"] == local and not s_["rv"]["pl"].get("p"):
+                tg = {int(v): b for (v, b) in tt["vals"] if str(v).lstrip("-").isdigit()}
+                for k in (0, 1):
+                    tg.setdefault(k, tt["else"])
+                return tg
+        return None
+
+    Tb = cj["blocks"][T]
+    tg = switch_on_discr_of(Tb, dest["l"])
+    if tg is not None:
+        return ("direct", T, None, tg)
+    tt = Tb["t"]
+    if tt["k"] == "call" and (tt.get("callee") or "").endswith("Try>::branch") and tt["args"] and tt["args"][0].get("k") == "move" and tt["args"][0]["pl"]["l"] == dest["l"] and not tt["args"][0]["pl"].get("p") and "t" in tt and not (tt.get("dest") or {}).get("p"):
+        U = tt["t"]
+        tg = switch_on_discr_of(cj["blocks"][U], tt["dest"]["l"])
+        if tg is not None:
+            return ("branch", T, U, tg)
+    return None
+
+
+def _only_handed_on(cj, cb):
+    dest = cj["blocks"][cb]["t"]["dest"]
+    if dest.get("p"):
+        return False
+    l = dest["l"]
+    uses = 0
+    for bl in cj["blocks"]:
+        for s_ in bl.get("s", []):
+            if s_["k"] != "assign":
+                continue
+            txt = repr(s_["rv"])
+            if ("'l': %d," % l) in txt or ("'l': %d}" % l) in txt:
+                return False
+        tt = bl["t"]
+        if tt["k"] == "switch" and tt["d"].get("pl", {}).get("l") == l:
+            return False
+        if tt["k"] == "call":
+            for a in tt["args"]:
+                if a.get("k") in ("move", "copy") and a["pl"]["l"] == l:
+                    if a["pl"].get("p"):
+                        return False
+                    uses += 1
+    return uses == 1
+
+
+def thread_plan(cj, cb, hj):
+    """'plain' (one way out, or not an Option / Result), a list of (site block, kind, variant, chain) to specialise, or None:
+    the helper has several ways out whose variants merge and the merge cannot be undone -> do not inline"""
+    ret_ty = hj["locals"][0]["ty"]
+    if not (ret_ty.startswith("core::result::Result<") or ret_ty.startswith("core::option::Option<")):
+        return "plain"
+    sites = _ret_sites(hj)
+    if len(sites) <= 1:
+        return "plain"
+    cont = _continuation(cj, cb)
+    if cont is None:
+        # the caller does not look at the result itself but hands it on whole (`set.extend(self.mark_full(..))`): the merge
+        # of the helper's ways out loses nothing the caller could branch on
+        return "plain" if _only_handed_on(cj, cb) else None
+    plan = []
+    for (bi, kind, v) in sites:
+        if v is None:
+            return None
+        bl = hj["blocks"][bi]
+        if kind == "stmt":
+            if bl["t"]["k"] == "return":
+                chain = []
+                first = None
+            elif bl["t"]["k"] in ("goto", "drop") and "t" in bl["t"]:
+                chain = _chain_to_return(hj, bl["t"]["t"])
+            else:
+                chain = None
+        else:
+            chain = _chain_to_return(hj, bl["t"]["t"]) if "t" in bl["t"] else None
+        if chain is None:
+            return None
+        plan.append((bi, kind, v, chain))
+    return (cont, plan)
+
+
 def inline_call(cj, cb, hj):
     """splice a copy of callee JSON `hj` into caller JSON `cj` at the call terminating block `cb`; returns True if done"""
     t = cj["blocks"][cb]["t"]
     if t["k"] != "call" or "t" not in t or t.get("dest") is None:
         return False
     if len(t["args"]) != hj["argc"]:
+        return False
+    plan = thread_plan(cj, cb, hj)
+    if plan is None:
         return False
     loff = len(cj["locals"])
     boff = len(cj["blocks"])
@@ -161,6 +314,42 @@ def inline_call(cj, cb, hj):
     blk["t"] = {"k": "goto", "t": boff, "inlined": hj["id"], "ln": ln}
     cj["blocks"].extend(hb)
     cj.setdefault("inlined", []).append(hj["id"])
+    if plan != "plain":
+        # undo the merge of the helper's ways out: each one gets its own copy of the blocks up to the caller's test of the
+        # result, which then jumps straight to the arm for the variant that way out produces (`return Err(..)` in the helper
+        # continues on the caller's error path and nowhere else)
+        (cont, sites) = plan
+        (shape, T, U, tg) = cont
+
+        def clone(bidx, new_term=None):
+            nb = copy.deepcopy(cj["blocks"][bidx])
+            if new_term is not None:
+                nb["t"] = new_term
+            cj["blocks"].append(nb)
+            return len(cj["blocks"]) - 1
+
+        for (bi, kind, v, chain) in sites:
+            idx = VARIANT_IDX[v]
+            arm = tg[idx] if shape == "direct" else tg[1 if v in BREAK_SIDE else 0]
+            # the caller's test, specialised
+            if shape == "direct":
+                first_c = clone(T, {"k": "goto", "t": arm})
+            else:
+                u2 = clone(U, {"k": "goto", "t": arm})
+                first_c = clone(T)
+                cj["blocks"][first_c]["t"]["t"] = u2
+            # the helper's way out (drops, the copy of the result into the call's destination), back to front
+            nxt = first_c
+            for hb_i in reversed(chain):
+                c2 = clone(boff + hb_i)
+                tt2 = cj["blocks"][c2]["t"]
+                tt2["t"] = nxt
+                nxt = c2
+            a = cj["blocks"][boff + bi]
+            if kind == "stmt" and hj["blocks"][bi]["t"]["k"] == "return":
+                a["t"] = {"k": "goto", "t": nxt}
+            else:
+                a["t"]["t"] = nxt
     return True
 
 
